@@ -14,7 +14,9 @@ MODELLED = ("storage/memory/storage.go (ReferenceStorage incl. CheckAndSetRefere
             "(possibly empty) and packed-refs lines (possibly malformed); objects as a set (loose + packed), index/config/shallow/"
             "reflog files as values (Model/StorageAPI.v); spec: the abstract store (Spec/AStore.v st_step). One filesystem model "
             "for every Options value and object format. Not modelled: Module storers, CountLooseRefs, alternates, HEAD "
-            "special-casing in Refs(), directory/file conflicts between reference names, concurrent access, I/O errors")
+            "special-casing in Refs(), directory/file conflicts between reference names, concurrent access, I/O errors; the order of the lines "
+            "PackRefs writes is modelled as name order (true on memfs; a real filesystem gives its directory order, which matters only after "
+            "packed-refs has been corrupted by a symbolic line: those histories run on memfs only)")
 TRUSTED = [
     "C-impl: every case is run on storage/memory and on storage/filesystem (memfs / osfs) under several option sets by harness/cmd/c17 and compared with Model/StorageAPI.c17_run",
     "oracle: Model/StorageAPI.c17_spec_run (the abstract store) evaluated in Coq on every case; every backend must answer every call, and the final snapshot, as the abstract store does",
@@ -124,7 +126,7 @@ class Main(Suite):
     name = "main"
     go_cmd = "c17"
     coq_imports = "From GoGit Require Import Spec.AStore Model.StorageAPI."
-    quick_n = 300
+    quick_n = 220
     thorough_n = 2000
     coq_chunk = 200
 
@@ -171,7 +173,29 @@ class Main(Suite):
                 ops = ops + [["reopen"]] + [["getref", k] for k in range(NN)] + [["iterrefs"], ["iterobjs", 0], ["getidx"], ["getcfg"], ["getshallow"]]
             cases.append({"bucket": b + ("-risky" if risky and b != "targeted" else ""), "backends": self.backends(rng),
                           "names": NAMES, "objs": OBJS, "ops": ops})
+        for c in cases:
+            if self.corrupting(c["ops"]):
+                c["backends"] = [be.replace("osfs", "memfs") for be in c["backends"]]
         return cases
+
+    @staticmethod
+    def corrupting(ops):
+        """does the history call PackRefs while a symbolic reference may be loose?  From then on the answers of the
+        filesystem storer depend on the order of the lines PackRefs wrote, i.e. on the directory order of the
+        filesystem: name order on memfs (what the model assumes), arbitrary on a real one"""
+        sym = {}
+        for o in ops:
+            if o[0] in ("setref", "casnil"):
+                sym[o[1]] = o[2][0] == "s"
+            elif o[0] == "cas":
+                sym[o[1]] = sym.get(o[1], False) or o[2][0] == "s"
+            elif o[0] == "delref":
+                sym.pop(o[1], None)
+            elif o[0] == "packrefs":
+                if any(sym.values()):
+                    return True
+                sym = {}
+        return False
 
     @staticmethod
     def defuse(ops):
